@@ -1,5 +1,5 @@
 #!/bin/bash
 # tools/seedbatch.sh "<dir>:<prop> ..."   runs seedrun for each (4 at a time), logs under _work/seedlogs
 mkdir -p /verif/_work/seedlogs
-for s in "$@"; do echo "$s"; done | xargs -P ${SEED_P:-4} -I{} bash -c 's={}; d=${s%%:*}; p=${s##*:}; /verif/tools/seedrun.py /tmp/mut_out/$d/patch.diff $p > /verif/_work/seedlogs/$(echo $d | tr / _)_$p.log 2>&1'
+for s in "$@"; do echo "$s"; done | xargs -P ${SEED_P:-4} -I{} bash -c 's={}; d=${s%%:*}; p=${s##*:}; n=$(echo $d | tr / -); /verif/tools/seedrun.py /verif/seeded/$n/patch.diff $p --record /verif/seeded/$n > /verif/_work/seedlogs/$(echo $d | tr / _)_$p.log 2>&1'
 for s in "$@"; do d=${s%%:*}; p=${s##*:}; echo "== $s"; grep -v "^(placeholder" /verif/_work/seedlogs/$(echo $d | tr / _)_$p.log | cut -c1-700; done
